@@ -26,6 +26,7 @@ type fakeRW struct {
 	HijackErr  error
 	wroteHdr   http.Header
 	NoHijacker bool
+	hijackConn net.Conn // when set, Hijack returns this connection instead of NC
 }
 
 func newFakeRW(nc *netsim.Conn, brSize int, preload []byte) *fakeRW {
@@ -56,6 +57,9 @@ func (w *fakeRW) Hijack() (net.Conn, *bufio.ReadWriter, error) {
 	w.Hijacks++
 	if w.HijackErr != nil {
 		return nil, nil, w.HijackErr
+	}
+	if w.hijackConn != nil {
+		return w.hijackConn, bufio.NewReadWriter(w.BR, w.BW), nil
 	}
 	return w.NC, bufio.NewReadWriter(w.BR, w.BW), nil
 }
